@@ -517,7 +517,7 @@ class Queue(Greenlet):
         if not self.relay:
             return
         self._pool_spawn('store', self._load_all)
-        self._pool_spawn('store', self._wait_store)
+        gevent.spawn(self._wait_store)
         while True:
             self.queued_lock.acquire()
             try:
